@@ -620,11 +620,11 @@ fn step_prepared(ctx: &mut Ctx, sc: &mut dyn ScopeOps) {
         }
         5 if typed => {
             // the collection outgrows its capacity: it asks for a bigger area (the old contents are copied by the collection)
+            // (as MutBumpVec::generic_grow_* does: the old buffer stays in use until the new one exists,
+            //  and remains THE buffer when the request fails)
             let p = ctx.prepared.take().unwrap();
             let e = p.elem.unwrap();
             let want = p.cap + 1 + ctx.rng.below(200) as usize;
-            ctx.count("abandon");
-            log_op(ctx, sc, "abandon", "unit");
             let text = format!("prepare_slice {} {} {want} {}", p.esize, p.ealign, p.rev as u8);
             ctx.count("prepare_slice (regrow)");
             match sc.x_prepare_slice(e, want, p.rev) {
@@ -635,6 +635,8 @@ fn step_prepared(ctx: &mut Ctx, sc: &mut dyn ScopeOps) {
                     check_c15_unmoved(ctx, sc, "regrow");
                 }
                 Err(()) => {
+                    ctx.br("regrow failed, old buffer kept");
+                    ctx.prepared = Some(p);
                     log_op(ctx, sc, &text, "err");
                 }
             }
